@@ -55,10 +55,14 @@ def autocorrPanics (samples : List (List Rat)) : Bool := samples.isEmpty
 /-- `calculate_autocorrelation(timesteps, beta, sampling_freq, sample_mapper)`: the states are collected
 with `timesteps_measure` (push a copy at every sampling point), mapped *afterwards* with the sampler in
 its final state, and handed to `fft_autocorrelation`. -/
+def calcSamples {σ : Type} (step : σ → σ) (n : σ → Nat) (view : σ → List Bool)
+    (mapper : σ → List Bool → List Rat) (T f : Nat) (s0 : σ) : List (List Rat) :=
+  let r := measureLoop step n (pushFold view) T f s0 []
+  r.acc.map (mapper r.st)
+
 def calcAutocorr {σ : Type} (step : σ → σ) (n : σ → Nat) (view : σ → List Bool)
     (mapper : σ → List Bool → List Rat) (T f : Nat) (s0 : σ) : List Rat :=
-  let r := measureLoop step n (pushFold view) T f s0 []
-  autocorr (r.acc.map (mapper r.st))
+  autocorr (calcSamples step n view mapper T f s0)
 
 def spinVal (b : Bool) : Rat := if b then 1 else -1
 
